@@ -211,7 +211,61 @@ func c11Pred(c Case, key string) string {
 	return ""
 }
 
+// c11Appears: `ignore missing` turns a template that does not exist into empty output -- at that render. When the
+// template exists at a later render (the loader has gained it) the include renders it, whatever was rendered before;
+// and the other way round. Forms: in a loop, in a block, static and computed names, next to a plain include.
+func c11Appears(res *Result) {
+	forms := []struct{ name, main string }{
+		{"top", "a[{% include 'opt' ignore missing %}]b"},
+		{"computed-name", "a[{% include 'o' ~ 'pt' ignore missing %}]b"},
+		{"loop", "a{% for i in [1, 2] %}[{% include 'opt' ignore missing %}]{% endfor %}b"},
+		{"block", "a{% block x %}[{% include 'opt' ignore missing %}]{% endblock %}b"},
+		{"with", "a[{% include 'opt' ignore missing with {'v': 1} %}]b"},
+		{"through-include", "a{% include 'mid' %}b"},
+	}
+	for _, f := range forms {
+		for _, cache := range []bool{true, false} {
+			ld := twig.NewArrayLoader(map[string]string{"main": f.main, "mid": "[{% include 'opt' ignore missing %}]"})
+			eng := twig.New()
+			eng.RegisterLoader(ld)
+			eng.SetCache(cache)
+			c := Case{"stream": "c11-appears", "form": f.name, "main": f.main, "cache": cache}
+			res.Hist["stream:c11-appears"]++
+			step := func(what, want string) bool {
+				res.Evaluations++
+				got, err := eng.Render("main", map[string]interface{}{})
+				obs := got
+				if err != nil {
+					obs = "error: " + err.Error()
+				}
+				if obs != want {
+					res.add(Finding{Kind: "oracle", Where: "c11-appears " + f.name + " (" + what + ")", Case: c, Expected: want, Observed: obs,
+						Detail: "history: render while 'opt' does not exist, the loader gains 'opt', render, 'opt' changes, render"})
+					return false
+				}
+				return true
+			}
+			empty := strings.ReplaceAll(strings.ReplaceAll(f.main, "{% include 'opt' ignore missing %}", ""), "{% include 'o' ~ 'pt' ignore missing %}", "")
+			_ = empty
+			n := 1
+			if f.name == "loop" {
+				n = 2
+			}
+			want := func(body string) string { return "a" + strings.Repeat("["+body+"]", n) + "b" }
+			if !step("the template does not exist", want("")) || !step("again", want("")) {
+				continue
+			}
+			ld.SetTemplate("opt", "OPT")
+			if !step("the loader has gained the template", want("OPT")) {
+				continue
+			}
+			step("again", want("OPT"))
+		}
+	}
+}
+
 func runC11(cases string, res *Result) {
+	c11Appears(res)
 	readCases(cases, func(c Case) {
 		stream := c.str("stream")
 		res.Hist["stream:"+stream]++
